@@ -49,6 +49,11 @@ func runStartFault(w *tr.Writer, seed uint64, idx int) {
 	if name == "socket" {
 		index = rnd.Intn(4) // few sockets are created: the listeners, and in reuse-port mode one more set per further loop
 	}
+	if proto == "tcp" && !client && rnd.Chance(12) {
+		// not an injected fault but a real one: a TCP keep-alive period below one second is refused by SetKeepAlive
+		// after the first listener's socket has been opened (initListener must close it again)
+		name, index = "keepalive", 0
+	}
 	kind := rnd.PickS([]string{"emfile", "enomem"})
 
 	rec := newRecorder()
@@ -119,15 +124,19 @@ func runStartFault(w *tr.Writer, seed uint64, idx int) {
 		done <- err
 	} else {
 		go func() {
+			var extra []gnet.Option
+			if name == "keepalive" {
+				extra = append(extra, gnet.WithTCPKeepAlive(500*time.Millisecond))
+			}
 			if addr2 != "" {
 				addrs := []string{addr, addr2}
 				if addr3 != "" {
 					addrs = append(addrs, addr3)
 				}
-				done <- gnet.Rotate(h, addrs, gnet.WithNumEventLoop(loops), gnet.WithReusePort(reuseport))
+				done <- gnet.Rotate(h, addrs, append(extra, gnet.WithNumEventLoop(loops), gnet.WithReusePort(reuseport))...)
 				return
 			}
-			done <- gnet.Run(h, addr, gnet.WithNumEventLoop(loops), gnet.WithReusePort(reuseport))
+			done <- gnet.Run(h, addr, append(extra, gnet.WithNumEventLoop(loops), gnet.WithReusePort(reuseport))...)
 		}()
 		select {
 		case <-h.booted:
@@ -187,7 +196,10 @@ func runStartFault(w *tr.Writer, seed uint64, idx int) {
 		w.Obs(tr.L("left", tr.I(len(rec.owned))))
 		w.Obs(tr.L("strayclose", tr.I(rec.nStray)))
 	}
-	hit := rec.startFaultHit
+	hit := rec.startFaultHit || (name == "keepalive" && !started)
+	if name == "keepalive" && started {
+		w.Fail("engine-start", "failure-swallowed", "a TCP keep-alive period that SetKeepAlive refuses did not make Run / Rotate fail")
+	}
 	if hit && !started && err == nil && !client {
 		w.Fail("engine-start", "failure-swallowed", fmt.Sprintf("%s #%d failed with %s during start but Run returned nil", name, index, kind))
 	}
